@@ -56,14 +56,19 @@ type c36Reply struct {
 
 type c36Case struct {
 	P       int
+	S       int  // replies from responders the node does not list as members (the query is re-broadcast transitively)
+	V6      bool // the node's own address is an IPv6 address
 	Replies []c36Reply
 	Order   []int
 }
 
 func c36Gen(rng *rand.Rand) c36Case {
-	c := c36Case{P: 1 + rng.Intn(6)}
+	c := c36Case{P: 1 + rng.Intn(6), V6: rng.Intn(4) == 0}
+	if rng.Intn(3) == 0 {
+		c.S = 1 + rng.Intn(5)
+	}
 	profile := rng.Intn(6)
-	for i := 0; i < c.P; i++ {
+	for i := 0; i < c.P+c.S; i++ {
 		k := c36Kinds[rng.Intn(len(c36Kinds))]
 		switch profile {
 		case 0: // only votes, to sit near the majority boundary
@@ -77,7 +82,7 @@ func c36Gen(rng *rand.Rand) c36Case {
 		}
 		c.Replies = append(c.Replies, rp)
 	}
-	c.Order = rng.Perm(c.P)
+	c.Order = rng.Perm(c.P + c.S)
 	return c
 }
 
@@ -94,7 +99,11 @@ func (c c36Case) String() string {
 }
 
 func c36Payload(kind string, cut int, ownIP string, ownPort uint16) []byte {
-	mem := &wire.Member{Name: "dup", Addr: net.ParseIP(ownIP).To4(), Port: ownPort, Tags: map[string]string{"role": "x"}, Status: 1,
+	own := net.ParseIP(ownIP)
+	if own.To4() != nil {
+		own = own.To4()
+	}
+	mem := &wire.Member{Name: "dup", Addr: own, Port: ownPort, Tags: map[string]string{"role": "x"}, Status: 1,
 		ProtocolMin: 1, ProtocolMax: 5, ProtocolCur: 2, DelegateMin: 2, DelegateMax: 5, DelegateCur: 5}
 	switch kind {
 	case c36Own16:
@@ -169,7 +178,11 @@ func c36Run(t *testing.T, c c36Case, seed int64) c36Result {
 		// timer-bound goroutines of the closed instances (probe timeouts against dead peers) run out first
 		defer time.Sleep(time.Minute)
 		lg := &c36Log{}
-		const ownIP, ownPort = "10.0.0.1", 7946
+		const ownPort = 7946
+		ownIP := "10.0.0.1"
+		if c.V6 {
+			ownIP = "fd00::36:1"
+		}
 		nd, err := cluster.Start(sn, cluster.Opts{Name: "dup", IP: ownIP, Port: ownPort, LogTo: lg})
 		if err != nil {
 			res.inconc = "node start: " + err.Error()
@@ -237,8 +250,12 @@ func c36Run(t *testing.T, c c36Case, seed int64) c36Result {
 			}
 			time.Sleep(time.Duration(rp.Gap) * time.Millisecond)
 			send := func(payload []byte) {
-				buf := wire.Encode(wire.QueryResponse, &wire.MsgQueryResponse{LTime: q.LTime, ID: q.ID, From: ps[pi].Name, Payload: payload})
-				if err := ps[pi].Send(dest, q.SourceNode, buf); err != nil {
+				from, sender := ps[pi%c.P].Name, ps[pi%c.P]
+				if pi >= c.P {
+					from = fmt.Sprintf("stranger-%d", pi)
+				}
+				buf := wire.Encode(wire.QueryResponse, &wire.MsgQueryResponse{LTime: q.LTime, ID: q.ID, From: from, Payload: payload})
+				if err := sender.Send(dest, q.SourceNode, buf); err != nil {
 					res.inconc = "puppet send: " + err.Error()
 				}
 				res.sent++
@@ -284,7 +301,7 @@ func c36Run(t *testing.T, c c36Case, seed int64) c36Result {
 			}
 		}
 		wantShutdown := res.matching < res.valid/2+1
-		desc := fmt.Sprintf("puppets=%d replies=[%s] order=%v: valid=%d matching=%d malformed=%d", c.P, c.String(), c.Order, res.valid, res.matching, res.malformed)
+		desc := fmt.Sprintf("node address %s, puppets=%d non-member responders=%d replies=[%s] order=%v: valid=%d matching=%d malformed=%d", ownIP, c.P, c.S, c.String(), c.Order, res.valid, res.matching, res.malformed)
 		switch {
 		case wantShutdown && st != serf.SerfShutdown:
 			res.viol, res.violKey = fmt.Sprintf("%s: fewer than a strict majority vote for the node, but its state is %v", desc, st), "alive-without-majority"
